@@ -45,6 +45,7 @@ pub fn opts_for(gates: &Gates) -> SpellOpts {
     o.textkw_case = gates.want("TEXT_KEYWORD_CASE");
     o.star_comments = gates.want("COMMENT_ENDING_IN_STAR_RUN");
     o.line_comments = gates.want("TRIVIA_LINE_COMMENT");
+    o.touch = gates.want("LEXEMES_MAY_TOUCH");
     o
 }
 
